@@ -89,15 +89,15 @@ def start (s : RtxSys) (ivl : Nat → Int) : RtxSys × Bool :=
 /-- `stop()` -/
 def stop (s : RtxSys) : RtxSys :=
   if s.t.state = .started then
-    let (g, wasArmed) := s.g.stop
-    { s with g := g, t := { s.t with pending := if wasArmed then s.t.pending - 1 else s.t.pending, state := .stopped } }
+    let r := s.g.stop   -- (disarmed timer, "was armed")
+    { s with g := r.1, t := { s.t with pending := if r.2 then s.t.pending - 1 else s.t.pending, state := .stopped } }
   else s
 
 /-- `close()` (`timer.Stop()` is only evaluated when started: `&&` short-circuits) -/
 def close (s : RtxSys) : RtxSys :=
   if s.t.state = .started then
-    let (g, wasArmed) := s.g.stop
-    { s with g := g, t := { s.t with pending := if wasArmed then s.t.pending - 1 else s.t.pending, state := .closed } }
+    let r := s.g.stop
+    { s with g := r.1, t := { s.t with pending := if r.2 then s.t.pending - 1 else s.t.pending, state := .closed } }
   else { s with t := { s.t with state := .closed } }
 
 /-- `isRunning()` -/
@@ -173,14 +173,14 @@ def start (s : AckSys) : AckSys × Bool :=
 
 def stop (s : AckSys) : AckSys :=
   if s.t.state = .started then
-    let (g, wasArmed) := s.g.stop
-    { s with g := g, t := { pending := if wasArmed then s.t.pending - 1 else s.t.pending, state := .stopped } }
+    let r := s.g.stop
+    { s with g := r.1, t := { pending := if r.2 then s.t.pending - 1 else s.t.pending, state := .stopped } }
   else s
 
 def close (s : AckSys) : AckSys :=
   if s.t.state = .started then
-    let (g, wasArmed) := s.g.stop
-    { s with g := g, t := { pending := if wasArmed then s.t.pending - 1 else s.t.pending, state := .closed } }
+    let r := s.g.stop
+    { s with g := r.1, t := { pending := if r.2 then s.t.pending - 1 else s.t.pending, state := .closed } }
   else { s with t := { s.t with state := .closed } }
 
 def isRunning (s : AckSys) : Bool := s.t.state = .started
